@@ -17,8 +17,24 @@ theorem LastClass.plain {cur : Nat} {e : Expr F} {i : Instruction} {d : Option N
     (_h1 : i ≠ .tis) (h2 : i ≠ .jumpTo) (h3 : i ≠ .endExpression) : LastClass cur e i d :=
   ⟨fun h => absurd h h2, h3⟩
 
+/-- the main line of a non-empty sequence of arms ends with the `JumpIf` of the last arm -/
+theorem lastArm (P : Prog F) (root cur join : Nat) : ∀ (arms : List (Bool × Expr F × Expr F)) (pc : Nat), arms ≠ [] →
+    LocatedArms P root cur join pc arms → ∃ b j, P.instrs[pc + lenArms arms - 1]? = some (jumpIf b, some j)
+  | [], _, h, _ => absurd rfl h
+  | (onTrue, c, t) :: rest, pc, _, h => by
+    simp only [LocatedArms] at h
+    obtain ⟨_, ⟨j, tb, hi, _⟩, hr⟩ := h
+    cases rest with
+    | nil => exact ⟨onTrue, j, by simpa [lenArms] using hi⟩
+    | cons a rest' =>
+      obtain ⟨b, j', hi'⟩ := lastArm P root cur join (a :: rest') (pc + len c + 1) (by simp) hr
+      refine ⟨b, j', ?_⟩
+      have : pc + lenArms ((onTrue, c, t) :: a :: rest') - 1 = pc + len c + 1 + lenArms (a :: rest') - 1 := by
+        simp only [lenArms]; omega
+      rw [this]; exact hi'
+
 theorem last_cases (P : Prog F) (root cur : Nat) : ∀ (e : Expr F) (pc : Nat),
-    Located P root cur pc e → wfE e = true →
+    Located P root cur pc e → wfC e = true →
     ∃ i d, P.instrs[pc + len e - 1]? = some (i, d) ∧ LastClass cur e i d
   | .lit v, pc, h, _ => by
     simp only [Located] at h; obtain ⟨k, hi, _⟩ := h
@@ -37,13 +53,13 @@ theorem last_cases (P : Prog F) (root cur : Nat) : ∀ (e : Expr F) (pc : Nat),
     exact ⟨.put, some k, by simpa [len] using hi, .plain (by simp) (by simp) (by simp)⟩
   | .unary op x, pc, h, hw => by
     simp only [Located] at h
-    simp only [wfE, Bool.and_eq_true] at hw
+    simp only [wfC, Bool.and_eq_true] at hw
     refine ⟨op, none, by simpa [len] using h.2, ?_⟩
     have := hw.1
     cases op <;> simp [unOK] at this <;> simp [LastClass]
   | .binary op l r, pc, h, hw => by
     simp only [Located] at h
-    simp only [wfE, Bool.and_eq_true] at hw
+    simp only [wfC, Bool.and_eq_true] at hw
     have hpos : pc + len (.binary op l r) - 1 = pc + len l + len r := by simp only [len]; omega
     refine ⟨op, none, by rw [hpos]; exact h.2.2, ?_⟩
     have := hw.1.1
@@ -67,10 +83,23 @@ theorem last_cases (P : Prog F) (root cur : Nat) : ∀ (e : Expr F) (pc : Nat),
     refine ⟨.putValue, none, ?_, .plain (by simp) (by simp) (by simp)⟩
     have : pc + len (.cond onTrue c t) - 1 = pc + len c + 1 := by simp only [len]; omega
     rw [this]; exact h2
-  | .chain arms none, pc, h, hw => by simp [wfE_chain] at hw
+  | .chain arms none, pc, h, _ => by
+    rw [Located_chain] at h
+    obtain ⟨join, hla, hfin, _⟩ := h
+    cases arms with
+    | nil =>
+      refine ⟨.putValue, none, ?_, .plain (by simp) (by simp) (by simp)⟩
+      have : pc + len (.chain ([] : List (Bool × Expr F × Expr F)) none) - 1 = pc := by rw [len_chain]; simp [lenArms]
+      rw [this]; exact hfin
+    | cons a rest =>
+      obtain ⟨b, j, hi⟩ := lastArm P root cur join (a :: rest) pc (by simp) hla
+      refine ⟨jumpIf b, some j, ?_, ?_⟩
+      · have : pc + len (.chain (a :: rest) none) - 1 = pc + lenArms (a :: rest) - 1 := by rw [len_chain]; simp only; omega
+        rw [this]; exact hi
+      · cases b <;> exact .plain (by simp [jumpIf]) (by simp [jumpIf]) (by simp [jumpIf])
   | .chain arms (some fe), pc, h, hw => by
     rw [Located_chain] at h
-    simp only [wfE_chain, Bool.and_eq_true] at hw
+    simp only [wfC_chain, Bool.and_eq_true] at hw
     obtain ⟨join, _, hfe, _⟩ := h
     obtain ⟨i, d, hi, hc⟩ := last_cases P root cur fe (pc + lenArms arms) hfe hw.2
     refine ⟨i, d, ?_, ?_⟩
@@ -88,7 +117,7 @@ theorem last_cases (P : Prog F) (root cur : Nat) : ∀ (e : Expr F) (pc : Nat),
     exact ⟨.or, some j, by simpa [len] using h1, .plain (by simp) (by simp) (by simp)⟩
   | .seq a b, pc, h, hw => by
     simp only [Located] at h
-    simp only [wfE, Bool.and_eq_true] at hw
+    simp only [wfC, Bool.and_eq_true] at hw
     obtain ⟨i, d, hi, hc⟩ := last_cases P root cur b (pc + len a + 1) h.2.2 hw.2
     refine ⟨i, d, ?_, ?_⟩
     · have := len_pos b
@@ -133,7 +162,7 @@ theorem termsAfter_tis {P : Prog F} {pcEnd join : Nat} :
 /-- the `EndExpression` of a body is never skipped: the main line of a well-formed expression does not end
 with one -/
 theorem termsAfter_end {P : Prog F} {root cur pc : Nat} {e : Expr F}
-    (h : Located P root cur pc e) (hw : wfE e = true) :
+    (h : Located P root cur pc e) (hw : wfC e = true) :
     termsAfter P (pc + len e) [(.endExpression, none)] = [(.endExpression, none)] := by
   obtain ⟨i, d, hi, hc⟩ := last_cases P root cur e pc h hw
   simp only [termsAfter, List.filter, hi]
